@@ -2,11 +2,19 @@
 """C-d code-book rules (writer <-> reader agreement) built on sa/codebooks.py"""
 import ast
 from .core import AnalysisError
-from .astutil import src, helper_returns
+from .astutil import src, helper_returns, reach_conditions, enclosing_map, positive_conjuncts
 from .codebooks import regex_literal, group_language, whole_language, atom_re_groups, TOK
 from .tables import module_literal
 
 SMI = 'chython.algorithms.smiles'
+
+
+def _ifexp_arms(e, conds=()):
+    """leaves of a conditional expression with the (textual) conditions selecting them"""
+    if isinstance(e, ast.IfExp):
+        t = [src(c) for c in positive_conjuncts(e.test)]
+        return _ifexp_arms(e.body, tuple(conds) + tuple(t)) + _ifexp_arms(e.orelse, tuple(conds))
+    return [(e, list(conds))]
 
 
 def rule_charge_spellings(ck, repo, R):
@@ -142,15 +150,23 @@ def rule_smiles_codebooks(ck, repo, R):
     # hydrogens
     hl = group_language(pat, names.index('hydrogen') + 1)
     hw = set()
+    h_sites = []
+    parents = enclosing_map(fa.node)
     for n in ast.walk(fa.node):
         if isinstance(n, ast.Assign) and src(n.targets[0]) == 'smi[4]':
             rets = helper_returns(n.value, fa.module.tree)  # token chosen by an extracted helper: its return expressions, arguments substituted
             if rets is not None:
                 hw |= {src(r) for r in rets if src(r) != "''"}
             elif src(n.value) != "''":  # the empty token is the initial value of the slot
-                hw.add(src(n.value))
+                for leaf, conds in _ifexp_arms(n.value):
+                    hw.add(src(leaf))
+                    if src(leaf) == "'H'":
+                        h_sites.append((n, conds + [src(c) for c in reach_conditions(n, fa.node, parents)]))
     ck.decide(hw == {"'H'", "f'H{atom.implicit_hydrogens}'"} and 'H' in hl and all(f'H{i}' in hl for i in range(2, 5)), R, 'hydrogens', sorted(hw),
               f'hydrogen tokens written {sorted(hw)} vs read {sorted(hl)}', file=fa.file, line=fa.lineno)
+    for n, conds in h_sites:
+        ck.decide('atom.implicit_hydrogens == 1' in conds, R, 'hydrogens:bare-H-means-one', conds,
+                  f"the bare 'H' token is written under {conds}: the reader decodes it as exactly one hydrogen", file=fa.file, line=n.lineno)
     ap = repo.func(f'{TOK}:_atom_parse')
     s = src(ap.node)
     ck.decide('hydrogen = int(hydrogen[1:])' in s and 'hydrogen = 1' in s and 'hydrogen = 0' in s, R, 'hydrogens:reader', None,
